@@ -151,15 +151,15 @@ PROPS = {
     'C01': dict(fn=mk(C01_RULES, lambda r: _c01_keep(r)), explanation='prune polarity at the pop / enqueue / rough-bound sites, restricted->relaxed->enqueue protocol, Complete only on an empty fringe, exactness withdrawn on every path that squashes a layer'),
     'C02': dict(fn=mk(['R02.', 'R12.a', 'R06.1', 'R06.2', 'R06.3', 'R11.d', 'R11.e', 'R11.h', 'R08.1', 'R15.2'], lambda r: r['rule'] != 'R15.2' or 'depth' in r['instance']), explanation='incumbent value and solution written together from the exact accessors of one diagram (one lock region in the parallel solver), improve-only guard, reported value = best_sol.map(|_| best_lb); longest-path max-update with witness edge; value and path read from one node; exact-best selection table'),
     'C03': dict(technique='repository-specific static rules over rustc MIR (rustc_private driver): edge-cut reachability, must-pass-through, origin terms, lock regions; compile_fail witnesses (Send + Sync models, private shared state)', witnesses=['W1', 'W2'], fn=mk(['R05.2', 'R01.', 'R02.', 'R03.', 'R04.9', 'R04.7', 'R04.10', 'R13.c', 'R06.', 'R07.1', 'R07.5', 'R07.6', 'R15.5', 'R15.2', 'R15.1', 'R08.', 'R09.', 'R10.', 'R11.', 'R12.', 'R18.'], _c03_keep), explanation='C01 clauses instantiated on ParallelSolver, lock regions (no re-entrant acquisition, one acquisition per check-then-act), pop-time discard polarity, cache mark guarded by must_explore'),
-    'C04': dict(technique='repository-specific static rules over rustc MIR (rustc_private driver): edge-cut reachability, must-pass-through, origin terms, lock regions; path-consistent guard enumeration for the condvar protocol; lower-bound interval domain (at least one worker)', fn=mk(['R04.', 'R11.c', 'R09.8', 'R18.a', 'R13.c', 'R08.3'], lambda r: r['rule'].startswith(('R04', 'R11', 'R18', 'R13.c', 'R08.3')) or r['instance'].startswith(('par/', 'clear-zeroes'))), explanation='checked premises P1-P9 of the deadlock-freedom argument (DESIGN.md C04): pairing of ongoing, release on every worker exit, wake-up not before the decrement, wait guards (path-consistent enumeration), completion guard, no re-entrant lock, vector length coupled to nb_threads, spawn range, at least one worker (lower-bound interval domain on every writer of nb_threads)'),
-    'C05': dict(fn=mk(['R05.', 'R19.1', 'R19.2', 'R11.', 'R02.1', 'R02.5', 'R01.2', 'R01.3'] + C01_RULES, lambda r: _c01_keep_both(r) or r['rule'].startswith(('R05', 'R19'))), explanation='cutoff => Err without finalisation; Err => abort_search on all paths; abort_proof set; completion unreachable after abort; bound stored at abort covers own node, in-flight nodes and fringe top; sequential best_ub written at pop only'),
-    'C06': dict(fn=mk(['R06.', 'R02.4', 'R02.6', 'R01.6', 'R01.7', 'R12.e', 'R12.d', 'R07.5', 'R05.1', 'R10.', 'R18.', 'R09.3', 'R09.4', 'R15.1'], lambda r: 'threshold-order' not in r['instance'] and 'threshold-no-manual' not in r['instance']), explanation='arc redirection with relaxed cost, relaxed/deleted flags, exactness propagation, complete reset between compilations (field table from the ADT), flag bits and tables, rough-bound pruning direction, exactness withdrawn when squashing'),
-    'C07': dict(fn=mk(['R07.', 'R01.7', 'R02.4', 'R02.5', 'R02.6', 'R13.a', 'R13.b', 'R06.3', 'R12.a', 'R12.d', 'R05.1', 'R10.', 'R18.', 'R09.', 'R15.1'], lambda r: 'threshold-order' not in r['instance'] and 'threshold-no-manual' not in r['instance']), explanation='restricted never merges, exact never squashes, truncation withdraws exactness and flags dropped nodes, squash order, value and path from one node through the best-edge chain, expanded vector is the squashed one'),
-    'C08': dict(fn=mk(['R08.', 'R01.4', 'R15.3', 'R15.2', 'R15.1', 'R10.', 'R18.', 'R09.3', 'R09.4', 'R12.e', 'R12.d', 'R06.1', 'R06.2', 'R06.3', 'R02.6', 'R02.4', 'R07.5'], lambda r: (r['rule'] != 'R12.e' or 'relax-' in r['instance'] or 'merge' in r['instance']) and (r['rule'] != 'R15.2' or 'depth' in r['instance']) and 'threshold-order' not in r['instance'] and 'threshold-no-manual' not in r['instance']), explanation='sub-problem fields from one exact, marked node; frontier/LEL admission; progress (first layer never squashed; root test for diagrams that keep nodes in the pool); ub term set; local-bound max-update; push unless ub <= best_lb'),
+    'C04': dict(technique='repository-specific static rules over rustc MIR (rustc_private driver): edge-cut reachability, must-pass-through, origin terms, lock regions; path-consistent guard enumeration for the condvar protocol; lower-bound interval domain (at least one worker)', fn=mk(['R04.', 'R11.c', 'R09.8', 'R18.a', 'R13.c', 'R08.3'], lambda r: r['rule'].startswith(('R04', 'R11', 'R18', 'R13.c', 'R08.3')) or r['instance'].startswith(('par/', 'clear-zeroes'))), explanation='checked premises P1-P9 of the deadlock-freedom argument (DESIGN.md C04): pairing of ongoing, release on every worker exit, wake-up not before the decrement, wait guards (path-consistent enumeration), completion guard, no re-entrant lock, vector length coupled to nb_threads, spawn range, at least one worker (lower-bound interval domain on every writer of nb_threads); a zero width (which panics a worker) is excluded on the combinators, and the progress rule of the pooled diagram (a root handed back for ever) is included'),
+    'C05': dict(fn=mk(['R05.', 'R19.1', 'R19.2', 'R11.', 'R02.1', 'R02.5', 'R01.2', 'R01.3'] + C01_RULES, lambda r: _c01_keep_both(r) or r['rule'].startswith(('R05', 'R19'))), explanation='cutoff => Err without finalisation; Err => abort_search on all paths; abort_proof set; completion unreachable after abort; bound stored at abort covers own node, in-flight nodes and fringe top; sequential best_ub written at pop only; the exactness clause (is_exact only if the value really is the optimum) makes every optimality rule of C01 / C03 a necessary condition as well'),
+    'C06': dict(fn=mk(['R06.', 'R02.4', 'R02.6', 'R01.6', 'R01.7', 'R12.e', 'R12.d', 'R07.5', 'R05.1', 'R10.', 'R18.', 'R09.3', 'R09.4', 'R15.1'], lambda r: 'threshold-order' not in r['instance'] and 'threshold-no-manual' not in r['instance']), explanation='arc redirection with relaxed cost, relaxed/deleted flags, exactness propagation, complete reset between compilations (field table from the ADT), flag bits and tables, rough-bound pruning direction, exactness withdrawn when squashing; dominance comparison / store tables, cache-store rules and the in-layer filters (a fresh dominance checker or a cleared cache is an empty store: a wrong comparison prunes inside one isolated compilation)'),
+    'C07': dict(fn=mk(['R07.', 'R01.7', 'R02.4', 'R02.5', 'R02.6', 'R13.a', 'R13.b', 'R06.3', 'R12.a', 'R12.d', 'R05.1', 'R10.', 'R18.', 'R09.', 'R15.1'], lambda r: 'threshold-order' not in r['instance'] and 'threshold-no-manual' not in r['instance']), explanation='restricted never merges, exact never squashes, truncation withdraws exactness and flags dropped nodes, squash order, value and path from one node through the best-edge chain, expanded vector is the squashed one; dominance and cache-store rules, threshold rules, the impact query of the pooled diagram'),
+    'C08': dict(fn=mk(['R08.', 'R01.4', 'R15.3', 'R15.2', 'R15.1', 'R10.', 'R18.', 'R09.3', 'R09.4', 'R12.e', 'R12.d', 'R06.1', 'R06.2', 'R06.3', 'R02.6', 'R02.4', 'R07.5'], lambda r: (r['rule'] != 'R12.e' or 'relax-' in r['instance'] or 'merge' in r['instance']) and (r['rule'] != 'R15.2' or 'depth' in r['instance']) and 'threshold-order' not in r['instance'] and 'threshold-no-manual' not in r['instance']), explanation='sub-problem fields from one exact, marked node; frontier/LEL admission; progress (first layer never squashed; root test for diagrams that keep nodes in the pool); ub term set; local-bound max-update; push unless ub <= best_lb; dominance and cache-store rules, in-layer filters, depth bookkeeping and impact query of the pooled diagram'),
     'C09': dict(fn=mk(['R09.', 'R18.', 'R03.pop', 'R07.5', 'R07.6', 'R15.5', 'R08.3', 'R08.5', 'R01.8', 'R01.3', 'R10.4'], lambda r: 'threshold-order' not in r['instance'] and 'threshold-no-manual' not in r['instance']), explanation='who writes thresholds and when; explored flag; filter below the root only; filter polarity and theta inheritance; closed list of theta writes with their guards; cache entry fields; mark at pop; must_explore before compiling'),
-    'C10': dict(technique='decision-table extraction from rustc MIR by exhaustive case / path enumeration over the finite ordering domains (compared with the product-order / Pareto specification tables); origin terms for keys and thresholds', fn=mk(['R10.', 'R07.6', 'R15.5', 'R01.8', 'R18.', 'R09.'], lambda r: 'threshold-order' not in r['instance'] and 'threshold-no-manual' not in r['instance']), explanation='decision tables extracted by path enumeration with literal consistency: partial_cmp loop automaton (9 cases) and value stage (9 cases), cmp polarity, retain closure table, threshold terms, store keys, in-layer filtering protocol'),
+    'C10': dict(technique='decision-table extraction from rustc MIR by exhaustive case / path enumeration over the finite ordering domains (compared with the product-order / Pareto specification tables); origin terms for keys and thresholds', fn=mk(['R10.', 'R07.6', 'R15.5', 'R01.8', 'R18.', 'R09.'], lambda r: 'threshold-order' not in r['instance'] and 'threshold-no-manual' not in r['instance']), explanation='decision tables extracted by path enumeration with literal consistency: partial_cmp loop automaton (9 cases) and value stage (9 cases), cmp polarity, retain closure table, threshold terms, store keys, in-layer filtering protocol; cache-store and threshold rules (the thresholds that the dominance filter hands to the cache)'),
     'C11': dict(technique='repository-specific static rules over rustc MIR (rustc_private driver): edge-cut reachability, must-pass-through, origin terms, lock regions; finite-case decision tables (merge of duplicates, bubble steps), linear-form / parity evaluation of the heap index arithmetic, structural key equality', fn=mk(['R11.']), explanation='SimpleFringe delegation to BinaryHeap with CompareSubProblem(MaxUB); MaxUB lexicographic order and operand order; NoDupFringe: len/is_empty/clear, pop/push pairing (slot recycled, key forgotten, position recorded), swaps update both tables, dedup key derived from state AND depth, merge table of the Occupied arm (9 cases), bubble-up decision on the merged candidate'),
-    'C12': dict(fn=mk(['R12.', 'R15.2', 'R15.1', 'R11.d', 'R11.e', 'R11.h', 'R06.3', 'R08.1']), explanation='provenance (origin terms) of every argument of transition, transition_cost, relax, merge, for_each_in_domain, next_variable; who may call _branch_on; depth counter; merged slice has at least two members'),
+    'C12': dict(fn=mk(['R12.', 'R15.2', 'R15.1', 'R11.d', 'R11.e', 'R11.h', 'R06.3', 'R08.1']), explanation='provenance (origin terms) of every argument of transition, transition_cost, relax, merge, for_each_in_domain, next_variable; who may call _branch_on; depth counter; merged slice has at least two members; clone fidelity of SubProblem (the fringe hands a clone back) and the impact query of the pooled diagram'),
     'C13': dict(technique='static rules over rustc MIR: must-pass-through (squash before expansion), symbolic vector-length accounting (truncate / push per path), lower-bound interval domain on the width combinators', fn=mk(['R13.', 'R01.2'], lambda r: r['rule'].startswith('R13') or 'max_width' in r['instance']), explanation='squash executed on every expanded layer vector; symbolic length <= max_width at every exit of _restrict/_relax; width guards'),
     'C14': dict(fn=mk(['R14.', 'R02.1', 'R02.2'] + C01_RULES, lambda r: _c01_keep_both(r)), explanation='set_primal strictness table, both fields under one guard; no prune site (pop, enqueue, rough bound, cache filter) discards a node with ub > best_lb; incumbent replaced only on improvement; with a primal of minus infinity the statement is plain optimality, so every optimality rule of C01 / C03 (both solvers) is a necessary condition as well'),
     'C15': dict(fn=mk(['R15.', 'R07.5', 'R08.', 'R12.', 'R06.1', 'R06.2', 'R06.3', 'R09.', 'R02.4', 'R02.5', 'R02.6', 'R13.a', 'R13.b', 'R01.6', 'R01.7'], lambda r: r['rule'].startswith('R15') or r['rule'] == 'R09.6' or r['instance'].startswith('Pooled')), explanation='Pooled: un-impacted nodes are neither expanded nor removed from the pool; depth assigned when a node leaves the pool and at finalisation; a layer is recorded only when non-empty; progress rule (root never handed out) shared with C08; plus every diagram rule instantiated on Pooled (cut-set, local bounds, thresholds, callback protocol, reset, squash)'),
@@ -172,5 +172,5 @@ PROPS = {
                       (r['rule'].startswith('R05') and (r['instance'].startswith(('seq/', 'ANCHOR')) or 'sequential' in (r['fn'] or ''))) or
                       (r['rule'].startswith(tuple(C01_RULES)) and _c01_keep(r))),
                 explanation='best_ub := popped ub, child bound = min(parent, child), incumbent improve-only, Complete sets best_ub := best_lb, sequential abort handling (the bound reported at a cut-off), fringe order (the reported bound is the top of the fringe); the last clause (from some index on the run is exact with both bounds equal to the optimum) is sequential optimality, so the rules of C01 are necessary conditions as well'),
-    'C20': dict(technique='repository-specific static rules over rustc MIR (rustc_private driver): edge-cut reachability, must-pass-through, origin terms, lock regions; panic-site inventory over the call graph, ID provenance for indexing, forward taint analysis (user text to the returned String)', fn=mk(['R20.', 'R15.2', 'R07.6', 'R07.4', 'R06.1', 'R06.4', 'R02.4'], lambda r: r['rule'].startswith(('R20', 'R07.6', 'R06.4')) or 'terminal-layer' in r['instance'] or 'created-' in r['instance'] or 'restrict-deletes-dropped' in r['instance'] or 'arcs-are-never-rewritten' in r['instance'] or 'every-arc-is-stored' in r['instance']), explanation='panic-site inventory of as_graphviz (call graph) with its discharge (layers non-empty after every successful compilation), one emission per visible node (skip only when hidden by configuration), edge label provenance over the inbound list, terminal drawn only when the terminal container is non-empty, user text (Debug of the states) reaches the returned String only through an escaping of the double quote and the backslash (forward taint analysis, taint.py)'),
+    'C20': dict(technique='repository-specific static rules over rustc MIR (rustc_private driver): edge-cut reachability, must-pass-through, origin terms, lock regions; panic-site inventory over the call graph, ID provenance for indexing, forward taint analysis (user text to the returned String)', fn=mk(['R20.', 'R15.2', 'R07.6', 'R07.4', 'R06.1', 'R06.4', 'R02.4'], lambda r: r['rule'].startswith(('R20', 'R07.6', 'R06.4')) or 'terminal-layer' in r['instance'] or 'created-' in r['instance'] or 'restrict-deletes-dropped' in r['instance'] or 'arcs-are-never-rewritten' in r['instance'] or 'every-arc-is-stored' in r['instance']), explanation='panic-site inventory of as_graphviz (call graph) with its discharge (layers non-empty after every successful compilation), one emission per visible node (skip only when hidden by configuration), edge label provenance over the inbound list, terminal drawn only when the terminal container is non-empty, user text (Debug of the states) reaches the returned String only through an escaping of the double quote and the backslash (forward taint analysis, taint.py); flag tables and in-place mutation of flags (the deleted flag decides what is drawn), the restricted layer flags exactly the dropped nodes'),
 }
